@@ -21,7 +21,7 @@
   terminator, exactly `L + 1` bytes are written (everything behind them is
   unchanged, and a buffer of exactly `L + 1` bytes suffices).
 -/
-import IgrisModel.C07.Lemmas
+import IgrisModel.C07.Lemmas3
 namespace Igris.C07
 open Igris.Proto
 
@@ -523,5 +523,725 @@ theorem atolOrig_longmin_witness :
     atol [0x2D#8, 0x39#8, 0x32#8, 0x32#8, 0x33#8, 0x33#8, 0x37#8, 0x32#8, 0x30#8, 0x33#8, 0x36#8, 0x38#8,
           0x35#8, 0x34#8, 0x37#8, 0x37#8, 0x35#8, 0x38#8, 0x30#8, 0x38#8, 0#8] = some (BitVec.ofInt 64 (-9223372036854775808)) := by
   decide
+
+
+/-! # Extension round 3 -/
+
+/-! ## H. how long the text is, exactly; the buffer every routine needs -/
+
+/-- the number of digits, characterised exactly: at most `k+1` digits iff `n < b^(k+1)` -/
+theorem digits_length_le_iff (b k n : Nat) (hb : 2 ≤ b) : (digits b n).length ≤ k + 1 ↔ n < b ^ (k + 1) :=
+  digits_length_le_iff' hb k n
+
+/-- exactly `k+1` digits iff `b^k ≤ n < b^(k+1)` (one digit iff `n < b`): every power of the
+    base is a length boundary of the text, and there are no others -/
+theorem digits_length_eq_iff (b k n : Nat) (hb : 2 ≤ b) :
+    (digits b n).length = k + 1 ↔ (k = 0 ∨ b ^ k ≤ n) ∧ n < b ^ (k + 1) :=
+  digits_length_eq_iff' hb k n
+
+/-- for a `(w+1)`-bit type the longest text in any base is that of the minimum (signed:
+    `-2^w`) and of the maximum (unsigned: `2^(w+1) - 1`) — for ALL values of the type -/
+theorem toa_longest_text (w : Nat) (num : BitVec (w + 1)) (b : Nat) (hb : 2 ≤ b) :
+    (canonInt false b num.toInt).length ≤ (canonInt false b (-(2 ^ w : Int))).length ∧
+    (canonNat true b num.toNat).length ≤ (canonNat true b (2 ^ (w + 1) - 1)).length := by
+  have h1 := @BitVec.toInt_lt (w + 1) num
+  have h2 := @BitVec.le_toInt (w + 1) num
+  simp only [Nat.add_sub_cancel] at h1 h2
+  exact ⟨longest_signed false hb w num.toInt h2 h1, longest_unsigned true hb (w + 1) num.toNat num.isLt⟩
+
+/-- bytes written (text + NUL) by width, any base ≥ 2: at most `bits + 2` for the signed and
+    `bits + 1` for the unsigned routines — 10/9, 18/17, 34/33, 66/65 bytes for 8..64 bit -/
+theorem toa_bytes_by_width (w : Nat) (num : BitVec (w + 1)) (b : Nat) (hb : 2 ≤ b) :
+    (canonInt false b num.toInt).length + 1 ≤ (w + 1) + 2 ∧
+    (canonNat true b num.toNat).length + 1 ≤ (w + 1) + 1 := by
+  have h1 := @BitVec.toInt_lt (w + 1) num
+  have h2 := @BitVec.le_toInt (w + 1) num
+  simp only [Nat.add_sub_cancel] at h1 h2
+  have hcast : ((2 ^ w : Nat) : Int) = (2 : Int) ^ w := by norm_cast
+  have hp : 0 < 2 ^ w := Nat.two_pow_pos w
+  have hna : num.toInt.natAbs < 2 ^ (w + 1) := by rw [Nat.pow_succ]; omega
+  have l1 := lsd_length_le hb (w + 1) num.toInt.natAbs hna
+  have l2 := lsd_length_le hb (w + 1) num.toNat num.isLt
+  rw [canonInt_length, canonNat_length]
+  simp only [digits, List.length_reverse]
+  constructor
+  · split <;> omega
+  · omega
+
+/-- ... and the bound is attained in base 2 by the minimum / the maximum: sign + `bits`
+    binary digits + NUL — it cannot be lowered -/
+theorem toa_bytes_bound_attained (w : Nat) :
+    (canonInt false 2 (-(2 ^ w : Int))).length + 1 = (w + 1) + 2 ∧
+    (canonNat true 2 (2 ^ (w + 1) - 1)).length + 1 = (w + 1) + 1 := by
+  have hcast : ((2 ^ w : Nat) : Int) = (2 : Int) ^ w := by norm_cast
+  have hp : 0 < 2 ^ w := Nat.two_pow_pos w
+  have hn : (-(2 ^ w : Int)).natAbs = 2 ^ w := by omega
+  have hneg : (-(2 ^ w : Int)) < 0 := by omega
+  have e1 : (digits 2 (2 ^ w)).length = w + 1 :=
+    (digits_length_eq_iff' (by omega) w (2 ^ w)).2 ⟨Or.inr (Nat.le_refl _), by rw [Nat.pow_succ]; omega⟩
+  have e2 : (digits 2 (2 ^ (w + 1) - 1)).length = w + 1 :=
+    (digits_length_eq_iff' (by omega) w (2 ^ (w + 1) - 1)).2
+      ⟨Or.inr (by rw [Nat.pow_succ]; omega), by have := Nat.two_pow_pos (w + 1); omega⟩
+  rw [canonInt_length, canonNat_length, hn, e1, e2, if_pos hneg]
+  omega
+
+/-- the longest DECIMAL texts of the eight kinds: "-128" 4, "-32768" 6, "-2147483648" 11,
+    "-9223372036854775808" 20 characters; "255" 3, "65535" 5, "4294967295" 10,
+    "18446744073709551615" 20 -/
+theorem toa_decimal_longest :
+    (canonInt false 10 (-(2 ^ 7 : Int))).length = 4 ∧ (canonInt false 10 (-(2 ^ 15 : Int))).length = 6 ∧
+    (canonInt false 10 (-(2 ^ 31 : Int))).length = 11 ∧ (canonInt false 10 (-(2 ^ 63 : Int))).length = 20 ∧
+    (canonNat true 10 (2 ^ 8 - 1)).length = 3 ∧ (canonNat true 10 (2 ^ 16 - 1)).length = 5 ∧
+    (canonNat true 10 (2 ^ 32 - 1)).length = 10 ∧ (canonNat true 10 (2 ^ 64 - 1)).length = 20 := by
+  have e (k n : Nat) (h : (k = 0 ∨ 10 ^ k ≤ n) ∧ n < 10 ^ (k + 1)) : (digits 10 n).length = k + 1 :=
+    (digits_length_eq_iff' (by omega) k n).2 h
+  refine ⟨?_, ?_, ?_, ?_, ?_, ?_, ?_, ?_⟩
+  · rw [canonInt_length]; rw [show (-(2 ^ 7 : Int)).natAbs = 128 by decide, e 2 128 (by decide)]; decide
+  · rw [canonInt_length]; rw [show (-(2 ^ 15 : Int)).natAbs = 32768 by decide, e 4 32768 (by decide)]; decide
+  · rw [canonInt_length]; rw [show (-(2 ^ 31 : Int)).natAbs = 2147483648 by decide, e 9 2147483648 (by decide)]; decide
+  · rw [canonInt_length]; rw [show (-(2 ^ 63 : Int)).natAbs = 9223372036854775808 by decide, e 18 9223372036854775808 (by decide)]; decide
+  · rw [canonNat_length, e 2 (2 ^ 8 - 1) (by decide)]
+  · rw [canonNat_length, e 4 (2 ^ 16 - 1) (by decide)]
+  · rw [canonNat_length, e 9 (2 ^ 32 - 1) (by decide)]
+  · rw [canonNat_length, e 19 (2 ^ 64 - 1) (by decide)]
+
+/-- vt100_left never needs more than 15 bytes: ESC [ -2147483648 D NUL -/
+theorem vt100_left_bytes_le_15 (arg : BitVec 32) : (canonInt false 10 arg.toInt).length + 4 ≤ 15 := by
+  have h := (toa_longest_text 31 arg 10 (by omega)).1
+  have := toa_decimal_longest.2.2.1
+  omega
+
+/-! ## I. the parsers on EVERY input (grammar: the longest prefix of digits of the base) -/
+
+/-- igris_atou64 / igris_atou32 on any memory `m` (from `buf` to the end of the object): the
+    routine reads outside the object iff every byte of it is a digit of the base; otherwise the
+    value is the positional value of the longest digit prefix modulo 2^width and `*end` is its
+    length.  `isDigitOf`, `numberPrefix`, `prefixValue` are list operations over the two
+    alphabets (Spec.lean). -/
+theorem atou64_grammar (m : List Byte) (base : BitVec 8) :
+    atou64 m 0 base
+      = if m.all (isDigitOf base.toNat) then none
+        else some (BitVec.ofNat 64 (prefixValue base.toNat m), (numberPrefix base.toNat m).length) := by
+  simp only [atou64, List.drop_zero, atou_grammar]
+  split <;> simp [ofNat_mod 64]
+
+theorem atou32_grammar (m : List Byte) (base : BitVec 8) :
+    atou32 m 0 base
+      = if m.all (isDigitOf base.toNat) then none
+        else some (BitVec.ofNat 32 (prefixValue base.toNat m), (numberPrefix base.toNat m).length) := by
+  simp only [atou32, List.drop_zero, atou_grammar]
+  split <;> simp [ofNat_mod 32]
+
+/-- the signed parsers: exactly one leading `'-'` is a sign (the value is negated in the unsigned
+    type, `*end` counts it); anything else — `'+'`, a blank, a second `'-'` — is not part of a number -/
+theorem atoi64_grammar (c : Byte) (s : List Byte) (base : BitVec 8) :
+    atoi64 (c :: s) base
+      = if c = 0x2D#8 then
+          (if s.all (isDigitOf base.toNat) then none
+           else some (-(BitVec.ofNat 64 (prefixValue base.toNat s)), (numberPrefix base.toNat s).length + 1))
+        else atou64 (c :: s) 0 base := by
+  by_cases hc : c = 0x2D#8
+  · subst hc
+    have : (0x2D#8 == 0x2D#8) = true := by decide
+    simp only [atoi64, List.getElem?_cons_zero, this, if_true, atou64, List.drop_succ_cons, List.drop_zero,
+      atou_grammar_pos]
+    split <;> simp [ofNat_mod 64, Nat.add_comm]
+  · have : (c == 0x2D#8) = false := by simpa using hc
+    simp only [atoi64, List.getElem?_cons_zero, this, Bool.false_eq_true, if_false, hc]
+    cases atou64 (c :: s) 0 base <;> simp
+
+theorem atoi32_grammar (c : Byte) (s : List Byte) (base : BitVec 8) :
+    atoi32 (c :: s) base
+      = if c = 0x2D#8 then
+          (if s.all (isDigitOf base.toNat) then none
+           else some (-(BitVec.ofNat 32 (prefixValue base.toNat s)), (numberPrefix base.toNat s).length + 1))
+        else atou32 (c :: s) 0 base := by
+  by_cases hc : c = 0x2D#8
+  · subst hc
+    have : (0x2D#8 == 0x2D#8) = true := by decide
+    simp only [atoi32, List.getElem?_cons_zero, this, if_true, atou32, List.drop_succ_cons, List.drop_zero,
+      atou_grammar_pos]
+    split <;> simp [ofNat_mod 32, Nat.add_comm]
+  · have : (c == 0x2D#8) = false := by simpa using hc
+    simp only [atoi32, List.getElem?_cons_zero, this, Bool.false_eq_true, if_false, hc]
+    cases atou32 (c :: s) 0 base <;> simp
+
+/-- totality: on a NUL-terminated string (a NUL anywhere in the object) no parser ever reads
+    outside the object, whatever the bytes and the base -/
+theorem ato_total_on_c_strings (m : List Byte) (base : BitVec 8) (h : 0#8 ∈ m) :
+    (atou64 m 0 base).isSome ∧ (atou32 m 0 base).isSome ∧ (atoi64 m base).isSome ∧ (atoi32 m base).isSome := by
+  have hb : base.toNat ≤ 255 := by have := base.isLt; omega
+  have hall : ∀ l : List Byte, 0#8 ∈ l → l.all (isDigitOf base.toNat) = false := by
+    intro l hl
+    rw [Bool.eq_false_iff]; intro hc
+    have := List.all_eq_true.1 hc 0#8 hl
+    rw [isDigitOf_nul _ hb] at this; exact absurd this (by decide)
+  have h64 : (atou64 m 0 base).isSome := by rw [atou64_grammar, hall m h]; simp
+  have h32 : (atou32 m 0 base).isSome := by rw [atou32_grammar, hall m h]; simp
+  refine ⟨h64, h32, ?_, ?_⟩
+  · cases m with
+    | nil => simp at h
+    | cons c s =>
+      rw [atoi64_grammar]
+      by_cases hc : c = 0x2D#8
+      · have hs : 0#8 ∈ s := by
+          rcases List.mem_cons.1 h with h0 | h0
+          · subst hc; exact absurd h0 (by decide)
+          · exact h0
+        simp [hc, hall s hs]
+      · simp only [hc, if_false]; exact h64
+  · cases m with
+    | nil => simp at h
+    | cons c s =>
+      rw [atoi32_grammar]
+      by_cases hc : c = 0x2D#8
+      · have hs : 0#8 ∈ s := by
+          rcases List.mem_cons.1 h with h0 | h0
+          · subst hc; exact absurd h0 (by decide)
+          · exact h0
+        simp [hc, hall s hs]
+      · simp only [hc, if_false]; exact h32
+
+/-- non-canonical inputs, every base: the empty number is 0 with `*end = buf`; a lone `'-'` is 0
+    with `*end` behind it; `'+'`, a blank and a second `'-'` are not accepted (0, nothing or only
+    the sign consumed) -/
+theorem ato_noncanonical_inputs (base : BitVec 8) (rest : List Byte) :
+    atou64 (0#8 :: rest) 0 base = some (0#64, 0) ∧
+    atoi64 (0x2D#8 :: 0#8 :: rest) base = some (0#64, 1) ∧
+    atoi64 (0x2B#8 :: rest) base = some (0#64, 0) ∧
+    atou64 (0x2B#8 :: rest) 0 base = some (0#64, 0) ∧
+    atoi64 (0x20#8 :: rest) base = some (0#64, 0) ∧
+    atoi64 (0x2D#8 :: 0x2D#8 :: rest) base = some (0#64, 1) := by
+  have hb : base.toNat ≤ 255 := by have := base.isLt; omega
+  have nd : ∀ c : Byte, digitValue c = 255 → isDigitOf base.toNat c = false := by
+    intro c hc; rw [isDigitOf_iff _ hb, hc]; simp; omega
+  have h0 := nd 0#8 (by decide)
+  have hplus := nd 0x2B#8 (by decide)
+  have hsp := nd 0x20#8 (by decide)
+  have hmin := nd 0x2D#8 (by decide)
+  refine ⟨?_, ?_, ?_, ?_, ?_, ?_⟩
+  · simp [atou64_grammar, h0, prefixValue, numberPrefix, ofDigits]
+  · simp [atoi64_grammar, h0, prefixValue, numberPrefix, ofDigits]
+  · rw [atoi64_grammar]; simp [atou64_grammar, hplus, prefixValue, numberPrefix, ofDigits]
+  · simp [atou64_grammar, hplus, prefixValue, numberPrefix, ofDigits]
+  · rw [atoi64_grammar]; simp [atou64_grammar, hsp, prefixValue, numberPrefix, ofDigits]
+  · simp [atoi64_grammar, hmin, prefixValue, numberPrefix, ofDigits]
+
+/-- leading zeros are digits: they are consumed and do not change the value -/
+theorem ato_leading_zeros (b k : Nat) (hb : 1 ≤ b) (s : List Byte) :
+    prefixValue b (List.replicate k 0x30#8 ++ s) = prefixValue b s ∧
+    (numberPrefix b (List.replicate k 0x30#8 ++ s)).length = k + (numberPrefix b s).length := by
+  have hz : isDigitOf b 0x30#8 = true := by
+    have : charDigit 0x30#8 = some 0 := by decide
+    simp [isDigitOf, this]; omega
+  have hp : numberPrefix b (List.replicate k 0x30#8 ++ s) = List.replicate k 0x30#8 ++ numberPrefix b s := by
+    induction k with
+    | zero => simp
+    | succ k ih =>
+      simp only [List.replicate_succ, List.cons_append, numberPrefix, List.takeWhile_cons, hz, if_true] at ih ⊢
+      rw [ih]
+  constructor
+  · have hf : ∀ j : Nat, (List.replicate j 0x30#8).filterMap charDigit = List.replicate j 0 := by
+      intro j
+      induction j with
+      | zero => rfl
+      | succ j ih =>
+        have : charDigit 0x30#8 = some 0 := by decide
+        simp only [List.replicate_succ, List.filterMap_cons, this, ih]
+    rw [prefixValue, hp, List.filterMap_append, hf, ofDigits_leading_zeros, prefixValue]
+  · rw [hp]; simp
+
+/-- the 8/16-bit signed parsers on any digit string (audit F6): the 32-bit result narrowed -/
+theorem atoi16_atoi8_digit_string (base : BitVec 8) (chars : List Byte) (t : Byte) (rest : List Byte)
+    (h : ∀ c ∈ chars, digitValue c < base.toNat) (ht : ¬ digitValue t < base.toNat) :
+    atoi16 (0x2D#8 :: chars ++ t :: rest) base
+      = some (-(BitVec.ofNat 16 (ofDigits base.toNat (chars.map digitValue))), chars.length + 1) ∧
+    atoi8 (0x2D#8 :: chars ++ t :: rest) base
+      = some (-(BitVec.ofNat 8 (ofDigits base.toNat (chars.map digitValue))), chars.length + 1) := by
+  constructor
+  · rw [atoi16, atoi32_digit_string base chars t rest h ht]
+    simp only [Option.map_some, BitVec.truncate_eq_setWidth]
+    congr 2
+    apply BitVec.eq_of_toNat_eq
+    simp [BitVec.toNat_neg]
+  · rw [atoi8, atoi32_digit_string base chars t rest h ht]
+    simp only [Option.map_some, BitVec.truncate_eq_setWidth]
+    congr 2
+    apply BitVec.eq_of_toNat_eq
+    simp [BitVec.toNat_neg]
+
+example : ∃ (c : Byte), digitValue c < (10#8 : BitVec 8).toNat ∧ ¬ digitValue 0#8 < (10#8 : BitVec 8).toNat := ⟨0x35#8, by decide⟩
+
+
+/-! ### letter case, per function (audit F2a).  The property's "same canonical text" is up to the
+    case of the letters: igris_i*toa and the four libc shims write LOWER case, igris_u*toa, the
+    debug hex printers and uintNN_to_hex write UPPER case; every parser reads both
+    (`digit_either_case`, `ato_inverse_other_case`).  The statements below are about what each
+    function leaves in the buffer (`take e` = the text in front of the terminator). -/
+
+/-- igris_i64toa (and, through it, i32/i16/i8toa): no upper-case letter -/
+theorem i64toa_letters_lower (num : BitVec 64) (base : BitVec 8) (hb : 2 ≤ base.toNat ∧ base.toNat ≤ 36)
+    (m : List Byte) (hm : 66 ≤ m.length) :
+    ∃ m' e, i64toa num m base = some (m', e) ∧ ∀ c ∈ m'.take e, ¬ (65 ≤ c.toNat ∧ c.toNat ≤ 90) := by
+  have hl := i64toa_bytes_le_66 num base hb.1
+  refine ⟨_, _, i64toa_canonical num base hb m (by omega), ?_⟩
+  intro c hc
+  simp only [List.take_left'] at hc
+  rcases canonInt_mem hb.1 false _ c hc with rfl | ⟨d, hd, rfl⟩
+  · decide
+  · exact digitChar_lower_not_upper d (by omega)
+
+/-- igris_u64toa (and u32/u16/u8toa): no lower-case letter -/
+theorem u64toa_letters_upper (num : BitVec 64) (base : BitVec 8) (hb : 2 ≤ base.toNat ∧ base.toNat ≤ 36)
+    (m : List Byte) (hm : 66 ≤ m.length) :
+    ∃ m' e, u64toa num m base = some (m', e) ∧ ∀ c ∈ m'.take e, ¬ (97 ≤ c.toNat ∧ c.toNat ≤ 122) := by
+  have hl := digits_length_le_64 base.toNat num.toNat hb.1 num.isLt
+  refine ⟨_, _, u64toa_canonical num base hb m (by rw [canonNat_length]; omega), ?_⟩
+  intro c hc
+  simp only [List.take_left'] at hc
+  obtain ⟨d, hd, rfl⟩ := canonNat_mem hb.1 true _ c hc
+  exact digitChar_upper_not_lower d (by omega)
+
+/-- the libc shims: all four write lower case — `utoa`/`ultoa` differ from igris_u32toa/u64toa
+    in the case of the letters (bases above 10), and only in that -/
+theorem lc_letters_lower (n32 : BitVec 32) (n64 : BitVec 64) (base : BitVec 16) (hb : 2 ≤ base.toNat ∧ base.toNat ≤ 36)
+    (m : List Byte) (hm : 66 ≤ m.length) (c : Byte) :
+    (∀ m', itoa n32 m base = some (m', 0) → c ∈ m'.takeWhile (· ≠ 0#8) → ¬ (65 ≤ c.toNat ∧ c.toNat ≤ 90)) ∧
+    (∀ m', utoa n32 m base = some (m', 0) → c ∈ m'.takeWhile (· ≠ 0#8) → ¬ (65 ≤ c.toNat ∧ c.toNat ≤ 90)) ∧
+    (∀ m', ltoa n64 m base = some (m', 0) → c ∈ m'.takeWhile (· ≠ 0#8) → ¬ (65 ≤ c.toNat ∧ c.toNat ≤ 90)) ∧
+    (∀ m', ultoa n64 m base = some (m', 0) → c ∈ m'.takeWhile (· ≠ 0#8) → ¬ (65 ≤ c.toNat ∧ c.toNat ≤ 90)) := by
+  have key : ∀ (txt tl : List Byte), (∀ x ∈ txt, x ≠ 0#8 ∧ ¬ (65 ≤ x.toNat ∧ x.toNat ≤ 90)) →
+      c ∈ (txt ++ 0#8 :: tl).takeWhile (· ≠ 0#8) → ¬ (65 ≤ c.toNat ∧ c.toNat ≤ 90) := by
+    intro txt tl h hc
+    rw [takeWhile_nul txt tl (fun x hx => (h x hx).1)] at hc
+    exact (h c hc).2
+  have lowI : ∀ v : Int, ∀ x ∈ canonInt false base.toNat v, x ≠ 0#8 ∧ ¬ (65 ≤ x.toNat ∧ x.toNat ≤ 90) := by
+    intro v x hx
+    rcases canonInt_mem hb.1 false _ x hx with rfl | ⟨d, hd, rfl⟩
+    · decide
+    · exact ⟨digitChar_ne_nul d (by omega) false, digitChar_lower_not_upper d (by omega)⟩
+  have lowN : ∀ n : Nat, ∀ x ∈ canonNat false base.toNat n, x ≠ 0#8 ∧ ¬ (65 ≤ x.toNat ∧ x.toNat ≤ 90) := by
+    intro n x hx
+    obtain ⟨d, hd, rfl⟩ := canonNat_mem hb.1 false _ x hx
+    exact ⟨digitChar_ne_nul d (by omega) false, digitChar_lower_not_upper d (by omega)⟩
+  have b32 : (canonInt false base.toNat n32.toInt).length + 1 ≤ 66 :=
+    canonInt_bytes_le_66 false _ hb.1 _ (natAbs_lt32 n32)
+  have b64 : (canonInt false base.toNat n64.toInt).length + 1 ≤ 66 :=
+    canonInt_bytes_le_66 false _ hb.1 _ (natAbs_lt64 n64)
+  have u32 : (canonNat false base.toNat n32.toNat).length + 1 ≤ 66 := by
+    have := digits_length_le_64 base.toNat n32.toNat hb.1 (by have := n32.isLt; omega)
+    rw [canonNat_length]; omega
+  have u64 : (canonNat false base.toNat n64.toNat).length + 1 ≤ 66 := by
+    have := digits_length_le_64 base.toNat n64.toNat hb.1 n64.isLt
+    rw [canonNat_length]; omega
+  refine ⟨?_, ?_, ?_, ?_⟩
+  · intro m' h hc
+    rw [itoa_canonical n32 base hb m (by omega)] at h
+    cases h; exact key _ _ (lowI _) hc
+  · intro m' h hc
+    rw [utoa_canonical n32 base hb m (by omega)] at h
+    cases h; exact key _ _ (lowN _) hc
+  · intro m' h hc
+    rw [ltoa_canonical n64 base hb m (by omega)] at h
+    cases h; exact key _ _ (lowI _) hc
+  · intro m' h hc
+    rw [ultoa_canonical n64 base hb m (by omega)] at h
+    cases h; exact key _ _ (lowN _) hc
+
+-- the hypotheses are satisfiable and the conclusion is not vacuous: utoa(255, 16) = "ff", igris_u32toa gives "FF"
+example : utoa 255#32 (List.replicate 66 0xA5#8) 16#16 = some (0x66#8 :: 0x66#8 :: 0#8 :: List.replicate 63 0xA5#8, 0) := by decide
+example : (u32toa 255#32 (List.replicate 66 0xA5#8) 16#8).map (fun r => r.1.take r.2) = some [0x46#8, 0x46#8] := by decide
+
+/-- libc atol on EVERY text of the shape  blanks* [+|-] decimal-digits* non-digit ... :
+    the value of the digits with the sign applied when it fits a `long`, and undefined behaviour
+    (signed overflow, `none`) exactly when it does not — `LONG_MIN` is accepted, `2^63` is not.
+    Leading zeros, `+`, no digits at all (value 0) are all covered. -/
+theorem atol_grammar (ws sg : List Byte) (ds : List Nat) (t : Byte) (rest : List Byte)
+    (hws : ∀ c ∈ ws, c ∈ spaceChars) (hsg : sg = [] ∨ sg = [0x2B#8] ∨ sg = [0x2D#8]) (hds : ∀ d ∈ ds, d < 10)
+    (ht : t ∉ decimalChars) (hfirst : sg = [] → ds = [] → t ∉ spaceChars ∧ t ≠ 0x2B#8 ∧ t ≠ 0x2D#8) :
+    atol (ws ++ sg ++ ds.map (digitChar false) ++ t :: rest)
+      = if sg = [0x2D#8] then
+          (if ofDigits 10 ds ≤ 2 ^ 63 then some (BitVec.ofInt 64 (-(ofDigits 10 ds : Int))) else none)
+        else (if ofDigits 10 ds < 2 ^ 63 then some (BitVec.ofInt 64 (ofDigits 10 ds : Int)) else none) := by
+  have hws' : ∀ c ∈ ws, isspaceC c = true := by
+    intro c hc; rw [isspaceC_iff]; simpa using hws c hc
+  have ht' : isdigitC t = false := by rw [isdigitC_iff]; simpa using ht
+  rcases hsg with rfl | rfl | rfl
+  · -- no sign: the first character after the blanks is a digit or `t`
+    cases ds with
+    | nil =>
+      obtain ⟨h1, h2, h3⟩ := hfirst rfl rfl
+      have hsp : isspaceC t = false := by rw [isspaceC_iff]; simpa using h1
+      have e2 : (t == 0x2D#8) = false := by simpa using h3
+      have e3 : (t == 0x2B#8) = false := by simpa using h2
+      simp only [List.append_nil, List.map_nil]
+      unfold atol
+      rw [skipSpace_append ws t rest hws' hsp]
+      simp only [e2, e3, Bool.or_self, Bool.false_eq_true, if_false]
+      have := atol_tail false [] t rest (by simp) ht'
+      simp only [List.map_nil, List.nil_append, Bool.false_eq_true, if_false] at this
+      rw [this]; simp
+    | cons d ds =>
+      have hf := dec_char_facts d (hds d (by simp))
+      simp only [List.append_nil, List.map_cons, List.append_assoc, List.cons_append]
+      unfold atol
+      rw [skipSpace_append ws _ _ hws' hf.2.2.1]
+      simp only [hf.2.2.2.1, hf.2.2.2.2, Bool.or_self, Bool.false_eq_true, if_false]
+      have := atol_tail false (d :: ds) t rest hds ht'
+      simp only [List.map_cons, List.cons_append, Bool.false_eq_true, if_false] at this
+      rw [this]; simp
+  · have hsp : isspaceC 0x2B#8 = false := by decide
+    simp only [List.append_assoc, List.cons_append, List.nil_append]
+    unfold atol
+    rw [skipSpace_append ws _ _ hws' hsp]
+    have e1 : (0x2B#8 == 0x2D#8) = false := by decide
+    have e2 : (0x2B#8 == 0x2B#8) = true := by decide
+    simp only [e1, e2, Bool.or_true, if_true, Bool.false_eq_true, if_false]
+    have := atol_tail false ds t rest hds ht'
+    simp only [Bool.false_eq_true, if_false] at this
+    rw [this]; simp
+  · have hsp : isspaceC 0x2D#8 = false := by decide
+    simp only [List.append_assoc, List.cons_append, List.nil_append]
+    unfold atol
+    rw [skipSpace_append ws _ _ hws' hsp]
+    have e1 : (0x2D#8 == 0x2D#8) = true := by decide
+    simp only [e1, Bool.true_or, if_true]
+    have := atol_tail true ds t rest hds ht'
+    simp only [if_true] at this
+    rw [this]
+
+-- satisfiable; "  +0012x" is 12, "-9223372036854775808" is LONG_MIN, "9223372036854775808" overflows
+example : atol [0x20#8, 0x20#8, 0x2B#8, 0x30#8, 0x30#8, 0x31#8, 0x32#8, 0x78#8, 0#8] = some 12#64 := by decide
+
+
+/-! ## J. the remaining renderers of dprint_func_impl.c and the hexascii.h helpers -/
+
+/-- debug_writehex / debug_writebin: the bytes `ptr[0 .. size)` in order, each as two upper-case
+    hex digits / eight binary digits; the routine reads exactly that range (a `size` that reaches
+    past the object is an out-of-bounds read, `size = 0` reads nothing) -/
+theorem writehex_writebin_spec (mem : List Byte) (p : Nat) (size : BitVec 16) :
+    writehex mem p size
+      = (if size.toNat = 0 ∨ p + size.toNat ≤ mem.length then
+          some (((mem.drop p).take size.toNat).flatMap fun b => (fixedDigits 16 2 b.toNat).map (digitChar true))
+         else none) ∧
+    writebin mem p size
+      = (if size.toNat = 0 ∨ p + size.toNat ≤ mem.length then
+          some (((mem.drop p).take size.toNat).flatMap fun b => (fixedDigits 2 8 b.toNat).map (digitChar true))
+         else none) := by
+  constructor
+  · simp only [writehex, writeFwdLoop_spec]
+    split
+    · simp only [Option.map_some, emit_nil_reverse]
+      congr 2; funext b; exact printhexU8_spec b
+    · rfl
+  · simp only [writebin, writeFwdLoop_spec]
+    split
+    · simp only [Option.map_some, emit_nil_reverse]
+      congr 2; funext b; exact printbinU8_spec b
+    · rfl
+
+/-- debug_writehex_reversed / debug_writebin_reversed / debug_printhex_n: the same range, highest
+    address first -/
+theorem writehex_reversed_spec (mem : List Byte) (p : Nat) (size : BitVec 16) (n : Nat) :
+    writehexReversed mem p size
+      = (if size.toNat = 0 ∨ p + size.toNat ≤ mem.length then
+          some (((mem.drop p).take size.toNat).reverse.flatMap fun b => (fixedDigits 16 2 b.toNat).map (digitChar true))
+         else none) ∧
+    writebinReversed mem p size
+      = (if size.toNat = 0 ∨ p + size.toNat ≤ mem.length then
+          some (((mem.drop p).take size.toNat).reverse.flatMap fun b => (fixedDigits 2 8 b.toNat).map (digitChar true))
+         else none) ∧
+    printhexN mem p n
+      = (if n = 0 ∨ p + n ≤ mem.length then
+          some (((mem.drop p).take n).reverse.flatMap fun b => (fixedDigits 16 2 b.toNat).map (digitChar true))
+         else none) := by
+  have e : ∀ k : Nat, p + k - k = p := by intro k; omega
+  have c : ∀ k : Nat, (k = 0 ∨ k ≤ p + k ∧ p + k ≤ mem.length) ↔ (k = 0 ∨ p + k ≤ mem.length) := by
+    intro k; constructor <;> intro h <;> omega
+  refine ⟨?_, ?_, ?_⟩
+  · simp only [writehexReversed, writeRevLoop_spec, e, c]
+    split
+    · simp only [Option.map_some, emit_nil_reverse]
+      congr 2; funext b; exact printhexU8_spec b
+    · rfl
+  · simp only [writebinReversed, writeRevLoop_spec, e, c]
+    split
+    · simp only [Option.map_some, emit_nil_reverse]
+      congr 2; funext b; exact printbinU8_spec b
+    · rfl
+  · simp only [printhexN, hexNLoop_eq, writeRevLoop_spec, e, c]
+    split
+    · simp only [Option.map_some, emit_nil_reverse]
+      congr 2; funext b; exact printhexU8_spec b
+    · rfl
+
+example : writehex [0x01#8, 0xAB#8] 0 2#16 = some [0x30#8, 0x31#8, 0x41#8, 0x42#8] := by decide
+example : writehexReversed [0x01#8, 0xAB#8] 0 2#16 = some [0x41#8, 0x42#8, 0x30#8, 0x31#8] := by decide
+example : writehex [0x01#8] 0 2#16 = none := by decide
+
+/-- the typed hexadecimal entry points (`debug_printhex_unsigned_short … signed_long_long`, which go
+    through the pointer loop of debug_printhex_n on the object representation) and
+    debug_printhex_ptr: the upper-case base-16 digits at the full width of the type -/
+theorem printhex_typed_entry_points (a8 : BitVec 8) (a16 : BitVec 16) (a32 : BitVec 32) (a64 : BitVec 64) :
+    printhexChar a8 = some ((fixedDigits 16 2 a8.toNat).map (digitChar true)) ∧
+    printhexShort a16 = some ((fixedDigits 16 4 a16.toNat).map (digitChar true)) ∧
+    printhexInt a32 = some ((fixedDigits 16 8 a32.toNat).map (digitChar true)) ∧
+    printhexLong a64 = some ((fixedDigits 16 16 a64.toNat).map (digitChar true)) ∧
+    printhexPtr a64 = some ((fixedDigits 16 16 a64.toNat).map (digitChar true)) := by
+  have key : ∀ {w : Nat} (k : Nat) (a : BitVec w),
+      (writeRevLoop printhexU8 (bytesLE a k).toArray k k []).map List.reverse = some (printhexBytes (bytesLE a k)) := by
+    intro w k a
+    rw [writeRevLoop_spec]
+    have : k = 0 ∨ k ≤ k ∧ k ≤ (bytesLE a k).length := by rw [bytesLE_length]; omega
+    rw [if_pos this]
+    simp only [Option.map_some, emit_nil_reverse, Nat.sub_self, List.drop_zero, printhexBytes]
+    rw [List.take_of_length_le (by rw [bytesLE_length]; omega)]
+  refine ⟨by rw [printhexChar, printhexU8_spec], ?_, ?_, ?_, ?_⟩
+  · rw [printhexShort, printhexN, hexNLoop_eq]; simp only [Nat.zero_add]
+    rw [key 2 a16, printhexBytes_spec 2 a16]
+  · rw [printhexInt, printhexN, hexNLoop_eq]; simp only [Nat.zero_add]
+    rw [key 4 a32, printhexBytes_spec 4 a32]
+  · rw [printhexLong, printhexN, hexNLoop_eq]; simp only [Nat.zero_add]
+    rw [key 8 a64, printhexBytes_spec 8 a64]
+  · rw [printhexPtr, writehexReversed]
+    have : (8#16 : BitVec 16).toNat = 8 := rfl
+    simp only [this, Nat.zero_add]
+    rw [key 8 a64, printhexBytes_spec 8 a64]
+
+/-- the fixed-width hex/binary text IS the canonical text, zero-padded on the left to the width
+    of the type (audit F2b: `fixed_width_is_padded_canonical` instantiated for the shipped widths) -/
+theorem printhex_is_padded_canonical (a8 : Byte) (a16 : BitVec 16) (a32 : BitVec 32) (a64 : BitVec 64) :
+    printhexU8 a8 = List.replicate (2 - (canonNat true 16 a8.toNat).length) 0x30#8 ++ canonNat true 16 a8.toNat ∧
+    printhexU16 a16 = List.replicate (4 - (canonNat true 16 a16.toNat).length) 0x30#8 ++ canonNat true 16 a16.toNat ∧
+    printhexU32 a32 = List.replicate (8 - (canonNat true 16 a32.toNat).length) 0x30#8 ++ canonNat true 16 a32.toNat ∧
+    printhexU64 a64 = List.replicate (16 - (canonNat true 16 a64.toNat).length) 0x30#8 ++ canonNat true 16 a64.toNat ∧
+    printbinU64 a64 = List.replicate (64 - (canonNat true 2 a64.toNat).length) 0x30#8 ++ canonNat true 2 a64.toNat := by
+  have z : digitChar true 0 = 0x30#8 := by decide
+  obtain ⟨h8, h16, h32, h64⟩ := printhex_fixed_width a16 a32 a64 a8
+  have b64 := (printbin_fixed_width a16 a32 a64 a8).2.2.2
+  refine ⟨?_, ?_, ?_, ?_, ?_⟩
+  · rw [h8, fixed_width_is_padded_canonical 16 1 _ (by omega) (by have := a8.isLt; omega), z]
+  · rw [h16, fixed_width_is_padded_canonical 16 3 _ (by omega) (by have := a16.isLt; omega), z]
+  · rw [h32, fixed_width_is_padded_canonical 16 7 _ (by omega) (by have := a32.isLt; omega), z]
+  · rw [h64, fixed_width_is_padded_canonical 16 15 _ (by omega) (by have := a64.isLt; omega), z]
+  · rw [b64, fixed_width_is_padded_canonical 2 63 _ (by omega) (by have := a64.isLt; omega), z]
+
+/-- the literal clause "same canonical text" does NOT hold for the hex printers: 5 prints as "05" -/
+theorem printhex_not_canonical_witness : printhexU8 5#8 ≠ canonNat true 16 5 := by
+  intro h
+  have hl := congrArg List.length h
+  rw [canonNat_length, digits, lsd_small (by omega)] at hl
+  revert hl; decide
+
+/-- every decimal entry point at its own C type (audit F3): the canonical decimal text of the
+    value of that type — zero extension for the unsigned, sign extension for the signed ones,
+    the most negative value of every width included -/
+theorem printdec_typed_entry_points (x8 : BitVec 8) (x16 : BitVec 16) (x32 : BitVec 32) (x64 : BitVec 64) :
+    printdecU8 x8 = some (canonNat false 10 x8.toNat) ∧ printdecU16 x16 = some (canonNat false 10 x16.toNat) ∧
+    printdecU32 x32 = some (canonNat false 10 x32.toNat) ∧
+    printdecUChar x8 = some (canonNat false 10 x8.toNat) ∧ printdecUShort x16 = some (canonNat false 10 x16.toNat) ∧
+    printdecUInt x32 = some (canonNat false 10 x32.toNat) ∧ printdecULong x64 = some (canonNat false 10 x64.toNat) ∧
+    printdecULL x64 = some (canonNat false 10 x64.toNat) ∧
+    printdecSChar x8 = some (canonInt false 10 x8.toInt) ∧ printdecSShort x16 = some (canonInt false 10 x16.toInt) ∧
+    printdecSInt x32 = some (canonInt false 10 x32.toInt) ∧ printdecSLong x64 = some (canonInt false 10 x64.toInt) := by
+  have z8 : (x8.zeroExtend 64).toNat = x8.toNat := by
+    simp [BitVec.zeroExtend_eq_setWidth]; have := x8.isLt; omega
+  have z16 : (x16.zeroExtend 64).toNat = x16.toNat := by
+    simp [BitVec.zeroExtend_eq_setWidth]; have := x16.isLt; omega
+  have z32 : (x32.zeroExtend 64).toNat = x32.toNat := by
+    simp [BitVec.zeroExtend_eq_setWidth]; have := x32.isLt; omega
+  have s8 : (x8.signExtend 64).toInt = x8.toInt := BitVec.toInt_signExtend_of_le (by omega)
+  have s16 : (x16.signExtend 64).toInt = x16.toInt := BitVec.toInt_signExtend_of_le (by omega)
+  have s32 : (x32.signExtend 64).toInt = x32.toInt := BitVec.toInt_signExtend_of_le (by omega)
+  simp only [printdecU8, printdecU16, printdecU32, printdecUChar, printdecUShort, printdecUInt, printdecULong,
+    printdecULL, printdecSChar, printdecSShort, printdecSInt, printdecSLong, printdecU64_spec, printdecSLL_spec,
+    z8, z16, z32, s8, s16, s32, and_self]
+
+/-- a base outside 2..36 (an `unsigned short` here: 0, 1, 37, 266, 65535 …) makes every libc
+    shim store the empty string and return `buf` (audit F5) -/
+theorem lc_base_out_of_range (n32 : BitVec 32) (n64 : BitVec 64) (base : BitVec 16)
+    (h : base.toNat < 2 ∨ base.toNat > 36) (x : Byte) (rest : List Byte) :
+    itoa n32 (x :: rest) base = some (0#8 :: rest, 0) ∧ utoa n32 (x :: rest) base = some (0#8 :: rest, 0) ∧
+    ltoa n64 (x :: rest) base = some (0#8 :: rest, 0) ∧ ultoa n64 (x :: rest) base = some (0#8 :: rest, 0) := by
+  simp [itoa, utoa, ltoa, ultoa, wr, h]
+
+/-- hexascii.h: `uint8/16/32/64_to_hex` write the upper-case base-16 digits at the full width of
+    the type (2, 4, 8, 16 characters, no terminator) -/
+theorem uint_to_hex_fixed_width (a8 : Byte) (a16 : BitVec 16) (a32 : BitVec 32) (a64 : BitVec 64) :
+    uint8ToHex a8 = (fixedDigits 16 2 a8.toNat).map (digitChar true) ∧
+    uintToHex a16 2 = (fixedDigits 16 4 a16.toNat).map (digitChar true) ∧
+    uintToHex a32 4 = (fixedDigits 16 8 a32.toNat).map (digitChar true) ∧
+    uintToHex a64 8 = (fixedDigits 16 16 a64.toNat).map (digitChar true) :=
+  ⟨by rw [uint8ToHex_eq, printhexU8_spec], by rw [uintToHex_eq, printhexBytes_spec 2 a16],
+   by rw [uintToHex_eq, printhexBytes_spec 4 a32], by rw [uintToHex_eq, printhexBytes_spec 8 a64]⟩
+
+/-- ... and `hex_to_uint8/16/32/64` invert them for EVERY value of the type; the text may be
+    followed by anything (no terminator is read) -/
+theorem hex_to_uint_inverse (a8 : Byte) (a16 : BitVec 16) (a32 : BitVec 32) (a64 : BitVec 64) (rest : List Byte) :
+    hexToUint 8 1 (uint8ToHex a8 ++ rest) = some a8 ∧ hexToUint 16 2 (uintToHex a16 2 ++ rest) = some a16 ∧
+    hexToUint 32 4 (uintToHex a32 4 ++ rest) = some a32 ∧ hexToUint 64 8 (uintToHex a64 8 ++ rest) = some a64 := by
+  refine ⟨?_, hexToUint_uintToHex 2 (by decide) a16 rest, hexToUint_uintToHex 4 (by decide) a32 rest,
+    hexToUint_uintToHex 8 (by decide) a64 rest⟩
+  have := hexToUint_uintToHex 1 (by decide) a8 rest
+  simpa [uintToHex, bytesLE] using this
+
+/-- `hex_to_uintNN` reads the digits in either case: the fixed-width text written with lower-case
+    (or upper-case) letters parses to the value; `hex2half` maps both characters of a hex digit
+    to its value (audit F4; the unrepaired `hex2half('a')` was 42) -/
+theorem hex_to_uint_either_case (up : Bool) (a8 : BitVec 8) (a16 : BitVec 16) (a32 : BitVec 32) (a64 : BitVec 64)
+    (rest : List Byte) :
+    hexToUint 8 1 ((fixedDigits 16 2 a8.toNat).map (digitChar up) ++ rest) = some a8 ∧
+    hexToUint 16 2 ((fixedDigits 16 4 a16.toNat).map (digitChar up) ++ rest) = some a16 ∧
+    hexToUint 32 4 ((fixedDigits 16 8 a32.toNat).map (digitChar up) ++ rest) = some a32 ∧
+    hexToUint 64 8 ((fixedDigits 16 16 a64.toNat).map (digitChar up) ++ rest) = some a64 ∧
+    (∀ d, d < 16 → (hex2half (digitChar up d)).toNat = d) := by
+  have key : ∀ {w : Nat} (k : Nat) (a : BitVec w),
+      (bytesLE a k).reverse.flatMap (fun b => [digitChar up (b.toNat / 16), digitChar up (b.toNat % 16)])
+        = (fixedDigits 16 (2 * k) a.toNat).map (digitChar up) := by
+    intro w k
+    induction k with
+    | zero => intro a; simp [bytesLE, fixedDigits]
+    | succ k ih =>
+      intro a
+      have h1 : (a.truncate 8).toNat = a.toNat % 256 := by simp [BitVec.truncate_eq_setWidth]
+      have h2 : (a >>> 8).toNat = a.toNat / 256 := by simp [BitVec.toNat_ushiftRight, Nat.shiftRight_eq_div_pow]
+      have e : 2 * (k + 1) = 2 * k + 1 + 1 := by omega
+      rw [e]
+      simp only [bytesLE, List.reverse_cons, List.flatMap_append, List.flatMap_cons, List.flatMap_nil, List.append_nil,
+        fixedDigits, List.map_append, List.map_cons, List.map_nil, ih (a >>> 8), h1, h2]
+      have d1 : a.toNat / 16 / 16 = a.toNat / 256 := by rw [Nat.div_div_eq_div_mul]
+      have d2 : a.toNat % 256 / 16 = a.toNat / 16 % 16 := by omega
+      have d3 : a.toNat % 256 % 16 = a.toNat % 16 := by omega
+      rw [d1, d2, d3]
+      simp
+  refine ⟨?_, ?_, ?_, ?_, fun d hd => hex2half_digit d hd up⟩
+  · have := hexToUint_case up 1 (by decide) a8 rest
+    rwa [key 1 a8] at this
+  · have := hexToUint_case up 2 (by decide) a16 rest
+    rwa [key 2 a16] at this
+  · have := hexToUint_case up 4 (by decide) a32 rest
+    rwa [key 4 a32] at this
+  · have := hexToUint_case up 8 (by decide) a64 rest
+    rwa [key 8 a64] at this
+
+
+/-! ## K. debug_print_dump and igris/util/ctype.h -/
+
+/-- debug_print_dump(mem, len) emits exactly `dumpSpec` (Spec.lean: rows of eight, address column
+    `0x` + 16 upper-case hex digits + `:`, cells `HH `, three blanks past the data, the ASCII
+    column — the byte itself iff it is printable 0x20..0x7E, else `.` — and CR LF), and it reads
+    exactly `mem[0 .. len)`: with fewer bytes in the object it reads outside it.
+    (The unrepaired routine tested `isprint(mem[0] + j)`: fix 7b9c1c0.) -/
+theorem print_dump_spec (addr : BitVec 64) (mem : List Byte) (len : BitVec 16) :
+    printDump addr mem len
+      = if len.toNat ≤ mem.length then some (dumpSpec addr.toNat (mem.take len.toNat)) else none := by
+  simp only [printDump, dump_total]
+  by_cases h : len.toNat ≤ mem.length
+  · rw [if_pos h, dumpLoop_spec addr mem len.toNat h]
+    simp only [Option.map_some, emit_nil_reverse, dumpSpec, List.length_take, Nat.min_eq_left h]
+  · rw [if_neg h]
+    rw [dumpLoop_fault addr mem len.toNat (by omega) _ 0 [] (by omega) (by omega)]
+    rfl
+
+-- one full row and a partial one: 9 bytes "AB\n…"
+example : (printDump 0x1000#64 [0x41#8, 0x42#8, 0x0A#8, 0xFF#8, 0x20#8, 0x7E#8, 0x7F#8, 0x30#8, 0x31#8] 9#16).map List.length
+    = some 106 := by decide
+
+/-- igris ctype.h against the digit alphabets: `igris_isxdigit` is "digit of base 16",
+    `igris_isalnum` is "digit of base 36", `igris_isdigit` "digit of base 10";
+    `igris_toupper` / `igris_tolower` never change the digit value (letters of either case);
+    `igris_isprint` is 0x20..0x7E; a negative `char` (byte ≥ 0x80) is in no class -/
+theorem ctype_matches_digit_alphabets (c : Byte) :
+    (isxdigitI c.toInt = true ↔ digitValue c < 16) ∧
+    (isalnumI c.toInt = true ↔ digitValue c < 36) ∧
+    (isdigitI c.toInt = true ↔ digitValue c < 10) ∧
+    digitValue (BitVec.ofInt 8 (toupperI c.toInt)) = digitValue c ∧
+    digitValue (BitVec.ofInt 8 (tolowerI c.toInt)) = digitValue c ∧
+    (isprintI c.toInt = true ↔ 32 ≤ c.toNat ∧ c.toNat ≤ 126) ∧
+    (128 ≤ c.toNat → isalnumI c.toInt = false ∧ isspaceI c.toInt = false ∧ isprintI c.toInt = false) := by
+  revert c; decide
+
+
+/-! ## L. the `_partial` theorem of section G made exact -/
+
+/-- the excluded region of `atolOrig_ltoa_inverse_partial` is exactly `{LONG_MIN}`, and inside it
+    the behaviour is: signed overflow at the last digit, whatever follows the text — for the
+    UNREPAIRED atol the round trip holds iff `v ≠ LONG_MIN` (the repaired one: `atol_ltoa_inverse`,
+    `atol_grammar`) -/
+theorem atolOrig_ltoa_inverse_iff (v : BitVec 64) (tail : List Byte) :
+    atolOrig (canonInt false 10 v.toInt ++ 0#8 :: tail) = some v ↔ v ≠ BitVec.ofInt 64 (-9223372036854775808) := by
+  constructor
+  · intro h hv
+    subst hv
+    have ht : (BitVec.ofInt 64 (-9223372036854775808)).toInt = -9223372036854775808 := by decide
+    have hc : canonInt false 10 (-9223372036854775808)
+        = [0x2D#8, 0x39#8, 0x32#8, 0x32#8, 0x33#8, 0x33#8, 0x37#8, 0x32#8, 0x30#8, 0x33#8, 0x36#8, 0x38#8,
+           0x35#8, 0x34#8, 0x37#8, 0x37#8, 0x35#8, 0x38#8, 0x30#8, 0x38#8] := by
+      have hd : digits 10 9223372036854775808 = [9, 2, 2, 3, 3, 7, 2, 0, 3, 6, 8, 5, 4, 7, 7, 5, 8, 0, 8] := by
+        have := digits_unique 10 (by omega) [9, 2, 2, 3, 3, 7, 2, 0, 3, 6, 8, 5, 4, 7, 7, 5, 8, 0, 8] (by simp)
+          (by decide) (Or.inr (by decide))
+        rw [← this]; rfl
+      simp only [canonInt, canonNat]
+      rw [show (-9223372036854775808 : Int).natAbs = 9223372036854775808 by decide, hd]
+      decide
+    rw [ht, hc] at h
+    have hnone : atolOrig ([0x2D#8, 0x39#8, 0x32#8, 0x32#8, 0x33#8, 0x33#8, 0x37#8, 0x32#8, 0x30#8, 0x33#8, 0x36#8, 0x38#8,
+           0x35#8, 0x34#8, 0x37#8, 0x37#8, 0x35#8, 0x38#8, 0x30#8, 0x38#8] ++ 0#8 :: tail) = none := by rfl
+    rw [hnone] at h
+    exact absurd h (by simp)
+  · intro hv; exact atolOrig_ltoa_inverse_partial v hv tail
+
+
+/-- the `debug_asmlink_args*` self-test printers: every argument as its fixed-width upper-case
+    hex text followed by `':'`; `dprptr` / `dprptrln`: the 16 hex digits of the pointer (+ CR LF) -/
+theorem asmlink_and_dprptr_text (v8 : List (BitVec 8)) (v16 : List (BitVec 16)) (v32 : List (BitVec 32)) (p : BitVec 64) :
+    asmlinkArgs8 v8 = v8.flatMap (fun a => (fixedDigits 16 2 a.toNat).map (digitChar true) ++ [0x3A#8]) ∧
+    asmlinkArgs16 v16 = v16.flatMap (fun a => (fixedDigits 16 4 a.toNat).map (digitChar true) ++ [0x3A#8]) ∧
+    asmlinkArgs32 v32 = v32.flatMap (fun a => (fixedDigits 16 8 a.toNat).map (digitChar true) ++ [0x3A#8]) ∧
+    dprptr p = some ((fixedDigits 16 16 p.toNat).map (digitChar true)) ∧
+    dprptrln p = some ((fixedDigits 16 16 p.toNat).map (digitChar true) ++ [0x0D#8, 0x0A#8]) := by
+  refine ⟨?_, ?_, ?_, printhexPtr_spec p, by rw [dprptrln, printhexPtr_spec]; rfl⟩
+  · simp only [asmlinkArgs8]; congr 1; funext a; rw [printhexU8_spec]
+  · simp only [asmlinkArgs16]; congr 1; funext a; rw [printhexU16, printhexBytes_spec 2 a]
+  · simp only [asmlinkArgs32]; congr 1; funext a; rw [printhexU32, printhexBytes_spec 4 a]
+
+/-- the igris parsers invert the libc shims in EVERY base 2..36 and for EVERY value of the type
+    (libc's own atol/atoi read base 10 only): parse(render(v, b), b) = v with `*end` at the terminator -/
+theorem ato_inverse_libc (v32 : BitVec 32) (v64 : BitVec 64) (base : BitVec 8) (hb : 2 ≤ base.toNat ∧ base.toNat ≤ 36)
+    (m : List Byte) (hm : 66 ≤ m.length) :
+    (∃ m', itoa v32 m (base.zeroExtend 16) = some (m', 0) ∧
+        atoi32 m' base = some (v32, (canonInt false base.toNat v32.toInt).length)) ∧
+    (∃ m', utoa v32 m (base.zeroExtend 16) = some (m', 0) ∧
+        atou32 m' 0 base = some (v32, (canonNat false base.toNat v32.toNat).length)) ∧
+    (∃ m', ltoa v64 m (base.zeroExtend 16) = some (m', 0) ∧
+        atoi64 m' base = some (v64, (canonInt false base.toNat v64.toInt).length)) ∧
+    (∃ m', ultoa v64 m (base.zeroExtend 16) = some (m', 0) ∧
+        atou64 m' 0 base = some (v64, (canonNat false base.toNat v64.toNat).length)) := by
+  have e : (base.zeroExtend 16).toNat = base.toNat := by
+    simp [BitVec.zeroExtend_eq_setWidth]; have := base.isLt; omega
+  have hb' : 2 ≤ (base.zeroExtend 16).toNat ∧ (base.zeroExtend 16).toNat ≤ 36 := by rw [e]; exact hb
+  have b32 : (canonInt false base.toNat v32.toInt).length + 1 ≤ 66 :=
+    canonInt_bytes_le_66 false _ hb.1 _ (natAbs_lt32 v32)
+  have b64 : (canonInt false base.toNat v64.toInt).length + 1 ≤ 66 :=
+    canonInt_bytes_le_66 false _ hb.1 _ (natAbs_lt64 v64)
+  have u32 : (canonNat false base.toNat v32.toNat).length + 1 ≤ 66 := by
+    have := digits_length_le_64 base.toNat v32.toNat hb.1 (by have := v32.isLt; omega)
+    rw [canonNat_length]; omega
+  have u64 : (canonNat false base.toNat v64.toNat).length + 1 ≤ 66 := by
+    have := digits_length_le_64 base.toNat v64.toNat hb.1 v64.isLt
+    rw [canonNat_length]; omega
+  refine ⟨?_, ?_, ?_, ?_⟩
+  · have h := itoa_canonical v32 (base.zeroExtend 16) hb' m (by rw [e]; omega)
+    rw [e] at h
+    exact ⟨_, h, by rw [atoi32_canon base hb.1 hb.2, BitVec.ofInt_toInt]⟩
+  · have h := utoa_canonical v32 (base.zeroExtend 16) hb' m (by rw [e]; omega)
+    rw [e] at h
+    exact ⟨_, h, by rw [atou32_canon base hb.1 hb.2]; simp⟩
+  · have h := ltoa_canonical v64 (base.zeroExtend 16) hb' m (by rw [e]; omega)
+    rw [e] at h
+    exact ⟨_, h, by rw [atoi64_canon base hb.1 hb.2, BitVec.ofInt_toInt]⟩
+  · have h := ultoa_canonical v64 (base.zeroExtend 16) hb' m (by rw [e]; omega)
+    rw [e] at h
+    exact ⟨_, h, by rw [atou64_canon base hb.1 hb.2]; simp⟩
 
 end Igris.C07
